@@ -278,8 +278,13 @@ def alias_sweep(r, n_cases):
         dst_groups = [[f"D{i}{j}" for j in range(rng.choice([1, 2]))] for i in range(rng.randint(0, 3))]
         src = ProteinGroups.init_from_list([list(g) for g in src_groups])
         dst = ProteinGroups.init_from_list([list(g) for g in dst_groups])
-        dst.extend(src)
-        dst.create_index()
+        via_add_unseen = rng.random() < 0.4
+        if via_add_unseen:
+            # the rescue step's way of taking groups over (dst gets what it has not seen of src): the two collections then share nothing
+            dst.add_unseen_protein_groups(src, list(range(len(src_groups))))
+        else:
+            dst.extend(src)
+            dst.create_index()
         prots = [p for g in src_groups + dst_groups for p in g]
         ops = []
         for _ in range(rng.randint(1, 6)):
@@ -309,6 +314,27 @@ def alias_sweep(r, n_cases):
                                                      "returned": [list(g1), [list(g) for g in gs]], "src_groups_now": [list(g) for g in src.protein_groups]},
                                 True, f"alias_sweep: after dst.extend(src) and {ops} on dst, src's lookup of {p} returns {list(g1)} / "
                                       f"{[list(g) for g in gs]}, which does not contain it")
+                    return n
+            if via_add_unseen:
+                # src was only READ: its groups are what they were and its index answers exactly by them
+                now = [list(g) for g in src.protein_groups]
+                problem = None
+                if now != src_groups:
+                    problem = f"src's groups changed to {now} although only dst was operated on"
+                else:
+                    for q in (x for g in now for x in g):
+                        want = sorted(i for i, g in enumerate(now) if q in g)
+                        try:
+                            got = sorted(int(i) for i in src.get_protein_group_idxs([q]))
+                        except Exception:
+                            continue
+                        if got != want:
+                            problem = f"src's lookup of {q} gives positions {got}, it sits in {want}"
+                            break
+                if problem:
+                    r.violation("property-failure", {"suite": "alias_sweep", "src": src_groups, "dst": dst_groups, "taken_over_by": "add_unseen_protein_groups",
+                                                     "ops_on_dst": ops, "problem": problem}, True,
+                                f"alias_sweep: after dst.add_unseen_protein_groups(src) and {ops} on dst: {problem}"[:400])
                     return n
     return n
 
